@@ -7,6 +7,16 @@ using JSON = nlohmann::ordered_json;
 
 namespace ccl::api {
 
+namespace {
+
+//! Serialize analysis answer. Error parameters quote the input, which may contain ill-formed UTF-8
+[[nodiscard]] std::string DumpAnswer(const JSON& answer) {
+  static constexpr auto ensureASCII = false;
+  return answer.dump(JSON_IDENT, ' ', ensureASCII, JSON::error_handler_t::replace);
+}
+
+} // namespace
+
 std::string ParseExpression(const std::string& expression, const rslang::Syntax syntaxHint) {
   using rslang::Syntax;
   rslang::Parser parser{};
@@ -27,7 +37,7 @@ std::string ParseExpression(const std::string& expression, const rslang::Syntax 
     result["astText"] = "";
     result["ast"] = JSON::array();
   }
-  return result.dump(JSON_IDENT);
+  return DumpAnswer(result);
 }
 
 const semantic::RSForm& RSFormJA::data() const noexcept {
@@ -104,7 +114,7 @@ std::string RSFormJA::CheckExpression(const std::string& text, const rslang::Syn
     result["ast"] = JSON::array();
   }
 
-  return result.dump(JSON_IDENT);
+  return DumpAnswer(result);
 }
 
 std::string RSFormJA::CheckConstituenta(
@@ -151,7 +161,7 @@ std::string RSFormJA::CheckConstituenta(
     result["ast"] = JSON::array();
   }
 
-  return result.dump(JSON_IDENT);
+  return DumpAnswer(result);
 }
 
 } // namespace ccl::api
